@@ -11,6 +11,7 @@ Section Inv.
   Variable choose : nat -> nat -> list utxo -> list utxo.
   Variable more : nat -> nat -> list utxo -> bool.
   Variable finish : nat -> bool.
+  Variable can_sign : nat -> list utxo -> bool.
   (* what C03_select_sound proves of the real chooser *)
   Hypothesis choose_ok : forall b r l,
     NoDup (map uid l) -> incl (choose b r l) l /\ NoDup (map uid (choose b r l)).
@@ -110,7 +111,7 @@ Section Inv.
         * assumption.
   Qed.
 
-  Lemma step_inv st b : Inv st -> Inv (step true n choose more finish st b).
+  Lemma step_inv st b : Inv st -> Inv (step true n choose more finish can_sign st b).
   Proof.
     intro I. unfold step. destruct (n <=? b) eqn:Hn; [assumption|]. apply Nat.leb_gt in Hn.
     destruct (ph (bs st b)) eqn:P.
@@ -208,11 +209,13 @@ Section Inv.
       set (B' := if nonempty (sel (bs st b)) then
                    if more b (rnd (bs st b)) (held (bs st b))
                    then mkB PLock (S (rnd (bs st b))) [] [] (held (bs st b))
-                   else mkB PFinish (S (rnd (bs st b))) [] [] (held (bs st b))
+                   else if can_sign b (held (bs st b))
+                        then mkB PFinish (S (rnd (bs st b))) [] [] (held (bs st b))
+                        else mkB PAbort (S (rnd (bs st b))) [] [] (held (bs st b))
                  else mkB PAbort (rnd (bs st b)) [] [] (held (bs st b))).
       assert (HB : held B' = held (bs st b) /\ crit (ph B') = false /\ finished (ph B') = false /\
                    ph B' <> PSelect /\ ph B' <> PReserve /\ ph B' <> PDone Broadcast).
-      { unfold B'. destruct (nonempty _); [destruct (more _ _ _)|]; simpl; repeat split; discriminate. }
+      { unfold B'. destruct (nonempty _); [destruct (more _ _ _); [|destruct (can_sign _ _)]|]; simpl; repeat split; discriminate. }
       destruct HB as [Hh [Hc [Hf [Hp1 [Hp2 Hp3]]]]].
       constructor; simpl.
       + apply (I_nodup st I).
@@ -251,7 +254,7 @@ Section Inv.
     - assumption.
   Qed.
 
-  Lemma run_inv sched : forall st, Inv st -> Inv (run true n choose more finish sched st).
+  Lemma run_inv sched : forall st, Inv st -> Inv (run true n choose more finish can_sign sched st).
   Proof.
     induction sched as [|b s IH]; intros st I; simpl; [assumption|]. apply IH, step_inv, I.
   Qed.
@@ -261,7 +264,7 @@ Section Inv.
   Hypothesis w0_free : forall e, In e w0 -> snd e = false.
 
   Theorem exclusive sched :
-    let st := run true n choose more finish sched (init w0) in
+    let st := run true n choose more finish can_sign sched (init w0) in
     (forall b1 b2 i, b1 <> b2 -> In i (held_ids st b1) -> In i (held_ids st b2) -> False) /\
     (forall b, NoDup (held_ids st b)) /\
     (forall i, In i (reserved_ids (wal st)) <-> exists b, b < n /\ In i (held_ids st b)) /\
@@ -294,7 +297,7 @@ Section Inv.
   Qed.
 
   Theorem all_released sched :
-    let st := run true n choose more finish sched (init w0) in
+    let st := run true n choose more finish can_sign sched (init w0) in
     (forall b, b < n -> finished (ph (bs st b)) = true) ->
     reserved_ids (wal st) = [] /\
     ((forall b, b < n -> ph (bs st b) <> PDone Broadcast) -> wal st = w0).
@@ -326,13 +329,13 @@ Definition demo_wallet : wallet := [(mkU 1 500000 5 true true 1, false)].
 Definition demo_sched : list nat := [0; 0; 1; 1; 1; 0; 0; 0; 1; 1]%nat.
 
 Lemma lock_needed :
-  exists n choose more finish w0 sched,
+  exists n choose more finish can_sign w0 sched,
     (forall b r l, NoDup (map uid l) -> incl (choose b r l) l /\ NoDup (map uid (choose b r l))) /\
     NoDup (map (fun e : utxo * bool => uid (fst e)) w0) /\ (forall e, In e w0 -> snd e = false) /\
-    let st := run false n choose more finish sched (init w0) in
+    let st := run false n choose more finish can_sign sched (init w0) in
     exists i, In i (held_ids st 0) /\ In i (held_ids st 1).
 Proof.
-  exists 2%nat, first_one, (fun _ _ _ => false), (fun _ => false), demo_wallet, demo_sched.
+  exists 2%nat, first_one, (fun _ _ _ => false), (fun _ => false), (fun _ _ => true), demo_wallet, demo_sched.
   split; [exact first_one_ok|]. split; [repeat constructor; intros []|].
   split; [intros e [<-|[]]; reflexivity|].
   exists 1%N. vm_compute. split; left; reflexivity.
@@ -340,7 +343,7 @@ Qed.
 
 (* with the lock the same schedule keeps the builds apart *)
 Lemma demo_with_lock :
-  let st := run true 2 first_one (fun _ _ _ => false) (fun _ => false) demo_sched (init demo_wallet) in
+  let st := run true 2 first_one (fun _ _ _ => false) (fun _ => false) (fun _ _ => true) demo_sched (init demo_wallet) in
   held_ids st 0 = [1%N] /\ held_ids st 1 = [] /\ lock st = Some 1%nat.
 Proof. vm_compute. repeat split. Qed.
 
@@ -362,12 +365,22 @@ Section WithC03.
     split; auto.
   Qed.
 
-  Theorem exclusive_c03 n more finish w0 :
+  Theorem exclusive_c03 n more finish can_sign w0 :
     NoDup (ids_of w0) -> (forall e, In e w0 -> snd e = false) -> forall sched,
-    let st := run true n (c03_choose fpb shuffle strat amount) more finish sched (init w0) in
+    let st := run true n (c03_choose fpb shuffle strat amount) more finish can_sign sched (init w0) in
     (forall b1 b2 i, b1 <> b2 -> In i (held_ids st b1) -> In i (held_ids st b2) -> False) /\
     (forall b, NoDup (held_ids st b)) /\
     (forall i, In i (reserved_ids (wal st)) <-> exists b, b < n /\ In i (held_ids st b)) /\
     (forall b u, In u (held (bs st b)) -> ~ In u (unreserved (wal st))).
   Proof. intros. apply exclusive; try assumption. exact c03_choose_ok. Qed.
 End WithC03.
+
+(* a build that is funded and then fails while signing: its inputs are released again *)
+Lemma demo_sign_fails :
+  let st := run true 1 first_one (fun _ _ _ => false) (fun _ => false) (fun _ _ => false)
+                [0; 0; 0; 0; 0; 0]%nat (init demo_wallet) in
+  ph (bs st 0%nat) = PDone Failed /\ reserved_ids (wal st) = [] /\ wal st = demo_wallet /\
+  (let st5 := run true 1 first_one (fun _ _ _ => false) (fun _ => false) (fun _ _ => false)
+                  [0; 0; 0; 0; 0]%nat (init demo_wallet) in
+   ph (bs st5 0%nat) = PAbort /\ held_ids st5 0%nat = [1%N]).
+Proof. vm_compute. repeat split. Qed.
